@@ -182,6 +182,31 @@ class FragGen:
             obj = (rng.choice(['min', 'max']), self.num(1, False))
         return cons, lcons, obj
 
+    def model_levels(self):
+        """a continuous variable compared with two dyadic non-integer constants that share the integer part (1/4 and 3/4 ...): two different
+        entries of the converter's var==const map; at most one of them in a negative/mixed context (otherwise the converter refuses)"""
+        rng = self.rng
+        self.tame = True
+        base = rng.rint(-1, 1)
+        self.vars = [(F(base), F(base + 1), False), (F(0), F(3), True), (F(0), F(1), True)]
+        self.ints, self.conts = [1, 2], [0]
+        self.quarter_grid = True
+        fr = rng.choice([(1, 3), (1, 2), (2, 3), (3, 1), (2, 1)])
+        e1 = ('eq', ('v', 0), ('c', F(base) + F(fr[0], 4)))
+        e2 = ('eq', ('v', 0), ('c', F(base) + F(fr[1], 4)))
+        X = (rng.choice(['ge', 'le']), ('v', 1), ('c', F(rng.rint(1, 2))))
+        cons, lcons, obj = [], [], None
+        lcons.append(('or', [e1, e2]) if rng.chance(2, 3) else ('or', [e1, ('ge', ('v', 2), ('c', F(1)))]))
+        second = rng.below(3)
+        if second == 0:
+            lcons.append(('or', [('not', e2), X]))
+        elif second == 1:
+            cons.append((('add', [('ite', e2, ('v', 1), ('c', F(rng.rint(0, 3)))), ('v', 2)]), F(rng.rint(0, 1)), F(rng.rint(2, 4))))
+        else:
+            obj = (rng.choice(['min', 'max']), ('add', [('mul', F(rng.choice([4, -4, 2])), ('count', [e2])), ('v', 1)]))
+            cons.append((('add', [('v', 1), ('v', 2)]), None, F(rng.rint(2, 4))))
+        return cons, lcons, obj
+
     def model_shared_nested(self):
         """shapes of the open finding C01-result-var-usage-count: an or/and used twice through the expression map, once as a direct
         argument of a parent of the same type (cvt:pre:unnest inlines it there and marks it unused) and once somewhere else"""
@@ -240,6 +265,8 @@ def build(frag, cons, lcons, obj):
         m.var(None if li else lb, None if ui else ub, isint)
         if isint:
             grids.append([F(v) for v in range(int(lb), int(ub) + 1)])
+        elif getattr(frag, 'quarter_grid', False):
+            grids.append([lb + F(k, 4) for k in range(int((ub - lb) * 4) + 1)])
         else:
             g = sorted({lb, ub, (lb + ub) / 2, F(int(lb) + 1) if int(lb) + 1 < ub else ub})
             grids.append(g)
@@ -467,7 +494,7 @@ ENFORCED_FLOOR = 0.45
 # (was pending on the Lean side until 032a60f: resBnd of min/max with an infinite bound) switch kept for bisecting: when False the
 # native half of the refusal family is compared and counted like a flagged pair
 REFUSAL_FAMILY_NATIVE_ENFORCED = True
-FAMILIES = ('regular', 'refusal', 'shared-nested')
+FAMILIES = ('regular', 'refusal', 'shared-nested', 'levels')
 
 
 def e2e_signature(exe, m, grids, acc, wd, f0):
@@ -509,12 +536,14 @@ def run_refconv(ck, drv, exe, n_models, seed_base, wd, log=None):
 
     for k in range(n_models):
         rng = Rng(seed_base * 100003 + k)
-        fam = 'refusal' if k % 10 == 8 else ('shared-nested' if k % 15 == 14 else 'regular')
+        fam = 'refusal' if k % 10 == 8 else ('shared-nested' if k % 15 == 14 else ('levels' if k % 15 == 7 else 'regular'))
         g = FragGen(rng, tame=(k % 4 != 3))
         if fam == 'refusal':
             cons, lcons, obj = g.model_unbounded()
         elif fam == 'shared-nested':
             cons, lcons, obj = g.model_shared_nested()
+        elif fam == 'levels':
+            cons, lcons, obj = g.model_levels()
         else:
             cons, lcons, obj = g.model(nolcons=(k % 2 == 0))
         stratum = 'logical-rows' if lcons else 'no-logical-rows'
@@ -562,7 +591,7 @@ def run_refconv(ck, drv, exe, n_models, seed_base, wd, log=None):
                 if same:
                     continue
                 st['flagged_differ'] += 1
-                if real_ref or not (fam == 'shared-nested' or st['flagged_oracle_runs'] < oracle_cap):
+                if real_ref or not (fam in ('shared-nested', 'levels') or st['flagged_oracle_runs'] < oracle_cap):
                     continue
                 st['flagged_oracle_runs'] += 1
                 verdict, f0 = oracle_full(m, grids, r['rd'], budget_s=4.0)
